@@ -105,15 +105,21 @@ def _work(batch):
     out = []
     for c in batch:
         SEQ[0] += 1
+        cachelib.arm_timeout()
         try:
             r = run_case(c)
             if r is not None:
                 r["worker"] = [os.getpid(), SEQ[0]]
             out.append(r)
+        except cachelib.HistoryTimeout:
+            out.append({"steps": [], "bad": [], "known": False, "line": None, "ids": "", "std": {}, "nfind": 0,
+                        "timeout": True})
         except Exception as e:      # the harness itself must not hide a crash of the implementation
             out.append({"crash": f"{type(e).__name__}: {e}", "steps": [], "bad": [
                 {"step": "crash", "error": f"{type(e).__name__}: {e}"}], "known": False, "line": None,
                 "ids": "", "std": {}, "nfind": 0})
+        finally:
+            cachelib.disarm_timeout()
     return out
 
 
@@ -260,6 +266,10 @@ def main(tier, seed):
     for i, (c, r) in enumerate(zip(cases, results)):
         if r is None:
             refused += 1
+            continue
+        if r.get("timeout"):
+            chk.stats["histories-abandoned(view took > %ds)" % cachelib.LIMIT] = \
+                chk.stats.get("histories-abandoned(view took > %ds)" % cachelib.LIMIT, 0) + 1
             continue
         chk.count()
         kk = c["kind"].split(":")[0]
